@@ -13,6 +13,6 @@ def step (l : Line) : String :=
   -- model: with the fault inside the request's call sequence the handler answers with an error (c10_fail_closed)
   let model := if bool l "hit" then "error" else "no-fault"
   let observed := if !bool l "hit" then "no-fault" else if v.isNone then "error" else "not-closed"
-  s!"case={str l "case"} class={str l "flow"}:{str l "router"}:{if bool l "hit" then "fault@" ++ (str l "failed").takeWhile (· != '(') else "beyond"}:{nat l "o.status"} model={model} observed={observed} monitor={showMon v} agree={if model == observed then 1 else 0}"
+  s!"case={str l "case"} class={str l "flow"}:{str l "router"}:{str l "cred"}:{if bool l "hit" then "fault@" ++ (str l "failed").takeWhile (· != '(') else "beyond"}:{nat l "o.status"} model={model} observed={observed} monitor={showMon v} agree={if model == observed then 1 else 0}"
 
 end Drv.C10
